@@ -78,13 +78,14 @@ type XOpts struct {
 	Maps, Slices       bool
 	Arrays             bool
 	UserPtrs           bool
-	Unexported         bool // unexported fields (raw types only make sense with them)
-	ForcePrefixPair    bool // the first top-level field is an embedded struct whose first two fields are (pointer-to-)struct fields named N and N+"Replica"
-	OddNames           bool // some field names start with a non-ASCII upper-case letter
-	OddTagValues       bool // tag values with quotes, backslashes, blanks, colons, backticks, non-ASCII
-	ForceElemEmbed     bool // the first top-level field is a slice/array of structs whose element embeds a pointer to a struct
-	ElemNested         bool // element structs of slices/arrays/maps may contain struct, *struct and embedded struct fields
-	ElemUnexported     bool // unexported fields inside the element structs of slices/arrays/maps (Pointerify keeps those)
+	Unexported         bool         // unexported fields (raw types only make sense with them)
+	ForcePrefixPair    bool         // the first top-level field is an embedded struct whose first two fields are (pointer-to-)struct fields named N and N+"Replica"
+	Favor              reflect.Type // a scalar type drawn more often (the type the chain's substitution mangler replaces)
+	OddNames           bool         // some field names start with a non-ASCII upper-case letter
+	OddTagValues       bool         // tag values with quotes, backslashes, blanks, colons, backticks, non-ASCII
+	ForceElemEmbed     bool         // the first top-level field is a slice/array of structs whose element embeds a pointer to a struct
+	ElemNested         bool         // element structs of slices/arrays/maps may contain struct, *struct and embedded struct fields
+	ElemUnexported     bool         // unexported fields inside the element structs of slices/arrays/maps (Pointerify keeps those)
 	DialsTags          bool
 	Desc               bool // dialsdesc tags
 	PoolNames          bool // some realistic CamelCase field names
@@ -150,6 +151,9 @@ var xbasics = []reflect.Type{
 
 func (g *XGen) basic() reflect.Type {
 	r := g.R
+	if g.O.Favor != nil && r.Chance(1, 4) {
+		return g.O.Favor
+	}
 	if g.O.NamedSome && r.Chance(1, 6) {
 		switch r.Intn(3) {
 		case 0:
@@ -177,6 +181,18 @@ func (g *XGen) leaf() reflect.Type {
 			if o.Slices {
 				if r.Chance(1, 5) {
 					return reflect.TypeOf(NStrs(nil))
+				}
+				if r.Chance(1, 5) {
+					// a slice nested in a slice, map or array (its inner values may be nil)
+					b := g.basic()
+					switch r.Intn(3) {
+					case 0:
+						return reflect.SliceOf(reflect.SliceOf(b))
+					case 1:
+						return reflect.MapOf(reflect.TypeOf(""), reflect.SliceOf(b))
+					default:
+						return reflect.ArrayOf(2, reflect.SliceOf(b))
+					}
 				}
 				return reflect.SliceOf(g.basic())
 			}
